@@ -109,6 +109,52 @@ def patterns_around(rng, n, edges, new_edge, k):
     return out
 
 
+def worm(rng, h, w, tries=30):
+    """A long induced path of grid cells (a self-avoiding walk that never touches itself orthogonally): the region whose BFS depth
+    equals its length - what a rank / distance bound in an encoding has to cover.  Returns the list of cells in walk order."""
+    best = []
+    for _ in range(tries):
+        y, x = rng.randrange(h), rng.randrange(w)
+        path, cells = [(y, x)], {(y, x)}
+        while True:
+            opts = []
+            for dy, dx in ((1, 0), (-1, 0), (0, 1), (0, -1)):
+                q = (y + dy, x + dx)
+                if not (0 <= q[0] < h and 0 <= q[1] < w) or q in cells:
+                    continue
+                if sum(1 for ey, ex in ((1, 0), (-1, 0), (0, 1), (0, -1)) if (q[0] + ey, q[1] + ex) in cells) != 1:
+                    continue
+                # prefer hugging: score by number of out-of-board / already-blocked neighbours (longer worms)
+                opts.append(q)
+            if not opts:
+                break
+            y, x = rng.choice(opts)
+            path.append((y, x))
+            cells.add((y, x))
+        if len(path) > len(best):
+            best = path
+    return best
+
+
+def components_of(h, w, cells):
+    """connected components (lists of cells) of the given cell set under orthogonal adjacency"""
+    cells = set(cells)
+    out = []
+    while cells:
+        c = cells.pop()
+        comp, st = [c], [c]
+        while st:
+            y, x = st.pop()
+            for dy, dx in ((1, 0), (-1, 0), (0, 1), (0, -1)):
+                q = (y + dy, x + dx)
+                if q in cells:
+                    cells.discard(q)
+                    comp.append(q)
+                    st.append(q)
+        out.append(comp)
+    return out
+
+
 def scramble(rng, edges):
     """Same graph, edges in random order and random orientation (add_edge(larger, smaller) is legal)."""
     e2 = [(v, u) if rng.random() < 0.5 else (u, v) for u, v in edges]
